@@ -31,8 +31,8 @@ CLAUSES = {
 }
 
 BASE_CONST = {
-    "MaxFrames": "16", "Dev_PruneWithoutReap": "TRUE", "Dev_AfterSpawnKillDetached": "TRUE",
-    "Dev_BuiltinIgnoreList": "TRUE", "Dev_AddEmptyNameReturns": "TRUE", "MaxExt": "0", "MaxFork": "0", "MaxSig": "0", "MaxNow": "9",
+    "MaxFrames": "16", "Dev_PruneWithoutReap": "FALSE", "Dev_AfterSpawnKillDetached": "TRUE",
+    "Dev_BuiltinIgnoreList": "TRUE", "Dev_AddEmptyNameReturns": "FALSE", "MaxExt": "0", "MaxFork": "0", "MaxSig": "0", "MaxNow": "9",
     "MaxPid": "6", "Reduce": "TRUE", "ReqUntil": "4", "DieUntil": "5", "MaxReq": "1", "MaxDie": "1",
 }
 BASE_SUBST = {"DieStatuses": "st_one", "ObeyChoices": "both", "FaultSeqs": "nofault"}
